@@ -228,8 +228,8 @@ def meaning (c : Coding α) (f : SpecFile α) : Option (MeshVal α) := do
   | some fe =>
     let idx := (fe.faces.map (fun fc => fan fc.verts)).flatten
     let tri : MeshVal α := { withAttrs with topo := .triangle, indices := idx }
-    match fe.tex with
-    | none => pure tri
+    match (if idx.isEmpty then none else fe.tex) with
+    | none => pure tri      -- no texture coordinates, or no face at all: vertices stay as they are
     | some _ =>
       -- per-corner texture coordinates: every corner becomes its own vertex
       let corners ← tri.attrs.mapM (fun a => do
